@@ -194,7 +194,7 @@ Lemma ltb_f0_f0 : PrimFloat.ltb f0 f0 = false. Proof. vm_compute. reflexivity. Q
 Theorem hc_step_total h now : HcInv2 h -> exists h', hc_step h now = Ok h' /\ HcInv2 h'.
 Proof.
   intros [[I W] [T J]]. unfold hc_step.
-  destruct (fq_forget_frames_total (h_fq h) (now - opt_default INITIAL_RTT_ESTIMATE_MS (sr_rtt_ms (h_src h)) * 4)
+  destruct (fq_forget_frames_total (h_fq h) (now - N.max (opt_default INITIAL_RTT_ESTIMATE_MS (sr_rtt_ms (h_src h)) * 4) (opt_default INITIAL_RTO_ESTIMATE_MS (sr_rto_ms (h_src h))))
               (sr_rtt_ms (h_src h)) I) as (q1 & E1 & I1).
   rewrite E1. cbn [bind]. pose proof (fq_forget_frames_li _ _ _ _ E1) as M1.
   pose proof (fq_get_feedback_inv q1 now I1) as I2.
